@@ -170,9 +170,16 @@ theorem nodup_nil : NoDupKeys ([] : Map α β) := by simp [NoDupKeys, keys]
 
 /-! ### counting -/
 
+/-- 1 if the binding `k ↦ o` exists and satisfies `q`, else 0 -/
+def hit (q : α × β → Bool) (k : α) : Option β → Nat
+  | some v => if q (k, v) then 1 else 0
+  | none => 0
+
+@[simp] theorem hit_none (q : α × β → Bool) (k : α) : hit q k none = 0 := rfl
+@[simp] theorem hit_some (q : α × β → Bool) (k : α) (v : β) : hit q k (some v) = if q (k, v) then 1 else 0 := rfl
+
 theorem countP_erase {m : Map α β} (hn : NoDupKeys m) (q : α × β → Bool) (k : α) :
-    (erase m k).countP q =
-      m.countP q - (match get? m k with | some v => if q (k, v) then 1 else 0 | none => 0) := by
+    (erase m k).countP q = m.countP q - hit q k (get? m k) := by
   induction m with
   | nil => simp [erase]
   | cons e t ih =>
@@ -185,7 +192,7 @@ theorem countP_erase {m : Map α β} (hn : NoDupKeys m) (q : α × β → Bool) 
     · subst hak
       have hnone : get? t a = none := get?_none_of_not_mem_keys hn'.1
       rw [hnone] at iht
-      simp only [List.filter, decide_true, Bool.not_true, get?_cons, if_true]
+      simp only [List.filter, decide_true, Bool.not_true, get?_cons, if_true, hit_some, hit_none] at iht ⊢
       rw [iht, List.countP_cons]
       by_cases hq : q (a, b) <;> simp [hq]
     · simp only [List.filter, hak, decide_false, Bool.not_false, get?_cons, if_false]
@@ -196,14 +203,13 @@ theorem countP_erase {m : Map α β} (hn : NoDupKeys m) (q : α × β → Bool) 
         have hmem : (k, v) ∈ t := get?_some_mem hg
         by_cases hq : q (k, v)
         · have hpos : 0 < t.countP q := List.countP_pos_iff.mpr ⟨(k, v), hmem, hq⟩
-          simp only [hq, if_true]
+          simp only [hit_some, hq, if_true]
           omega
         · simp [hq]
 
 theorem countP_insert {m : Map α β} (hn : NoDupKeys m) (q : α × β → Bool) (k : α) (v : β) :
     (insert m k v).countP q =
-      (if q (k, v) then 1 else 0) +
-        (m.countP q - (match get? m k with | some o => if q (k, o) then 1 else 0 | none => 0)) := by
+      (if q (k, v) then 1 else 0) + (m.countP q - hit q k (get? m k)) := by
   unfold insert
   rw [List.countP_cons, countP_erase hn]
   omega
